@@ -27,7 +27,7 @@ def bool_reject(s: str) -> bool:
 
 def bool_encode_str(s: str) -> bool:
     """
-    pre: len(s) <= 5
+    pre: len(s) <= 4 and all(c in "tTrue" for c in s)
     post: _
     """
     # encode of a str: only (case-insensitively) 'true'/'false' are accepted, and map to the lexical form
@@ -45,7 +45,7 @@ def pad2(n):
 
 def dur_decode_rt(h: int, m: int, s: int, neg: bool) -> bool:
     """
-    pre: 0 <= h <= 99999 and 0 <= m < 60 and 0 <= s < 60
+    pre: 0 <= h <= 999 and 0 <= m < 60 and 0 <= s < 60
     post: _
     """
     # the form Duration.encode writes: [-]PThhHmmMssS
@@ -57,7 +57,7 @@ def dur_decode_rt(h: int, m: int, s: int, neg: bool) -> bool:
 
 def dur_decode_days(d: int, h: int, m: int, s: int, neg: bool) -> bool:
     """
-    pre: 0 <= d <= 9999 and 0 <= h < 24 and 0 <= m < 60 and 0 <= s < 60
+    pre: 0 <= d <= 999 and 0 <= h < 24 and 0 <= m < 60 and 0 <= s < 60
     post: _
     """
     # the form other producers write: [-]PnDTnHnMnS
@@ -69,7 +69,7 @@ def dur_decode_days(d: int, h: int, m: int, s: int, neg: bool) -> bool:
 
 def dur_reject_prefix(s: str) -> bool:
     """
-    pre: len(s) <= 5
+    pre: len(s) <= 3 and all(c in "-PT1HMSDx" for c in s)
     post: _
     """
     # anything that does not start with P / -P is rejected
@@ -104,7 +104,7 @@ def datetime_z(text: str) -> bool:
 
 def hexa_color_str(s: str) -> bool:
     """
-    pre: len(s) <= 5
+    pre: len(s) <= 3
     pre: all(c in " #0aF" for c in s)
     post: _
     """
